@@ -1,5 +1,6 @@
 import NflowsModel.Audit.Tool
 import NflowsModel.Properties.C01
+import NflowsModel.Properties.C01E
 import NflowsModel.Properties.C01J
 
 #audit_namespace Properties.C01
